@@ -33,7 +33,7 @@ chk = Check('C16', 'exploration',
             'x {3<->4 plane and vector maps; Cartesian vector and plane normal in every cell of the menu (7 family '
             'constructors, 2nd hexagonal, 3 triclinic incl. a rotated one, one seed-slice triclinic) through miller.* and Box.*; '
             'zone law against all [uvw] of [-2,2]^3; 8 centring settings; reduce_indices; all_indices}; every '
-            'bracket x fraction p/q (p,q<=3) x spacing variant x integer tuple of [-2,2]^3 and [-2,2]^4 (thorough: [-3,3]) (4-index: sum of first three = 0 not required by the parser) for fromstring; '
+            'bracket x fraction p/q (p,q<=3, plus 1/10 and 12/5) x spacing variant x integer tuple over {-2..2, 10, -12}^3 and ^4 (thorough: -3..3) (4-index: sum of first three = 0 not required by the parser) for fromstring; '
             'family constructors x parameter grids for identifyfamily.  evaluations = index vectors (or strings, cells) '
             'pushed through a real function; distinct_nontrivial = distinct (function, cell/setting, index vector) '
             'combinations, i.e. the evaluations of the canonical (N,k) shape, strings and cells')
@@ -51,6 +51,7 @@ chk.assumptions = [
 EPS = np.finfo(float).eps
 R = 9 if THOROUGH else 4
 SMAX = 3 if THOROUGH else 2      # index range of the string alphabet
+SVALUES = list(range(-SMAX, SMAX + 1)) + [10, -12]      # ... plus two multi-digit indices
 
 
 # ---------------------------------------------------------------------------
@@ -105,6 +106,12 @@ CELLS = [
     ('triclinic-rotated', None, lambda: am.Box(vects=chol_from_params(3.7, 4.1, 5.9, 81, 97, 112) @ rodrigues([1, 2, 3], 37.0).T,
                                                origin=[0.3, -1.1, 2.0])),
     ('triclinic-seed-slice', None, lambda: am.Box.triclinic(*_SEED_TRI[SEED % 8])),
+    # orthogonal / hexagonal cells whose vectors are NOT along the Cartesian axes (a cell is "cubic" by its lengths and
+    # angles, not by its orientation): rotated about z, cyclically permuted axes, generic rotation
+    ('cubic-rotated-45z', None, lambda: am.Box(vects=3.3 * np.eye(3) @ rodrigues([0, 0, 1], 45.0).T)),
+    ('orthorhombic-permuted-axes', None, lambda: am.Box(vects=[[0, 3.1, 0], [0, 0, 4.2], [5.3, 0, 0]])),
+    ('tetragonal-rotated', None, lambda: am.Box(vects=np.diag([3.0, 3.0, 4.7]) @ rodrigues([1, 2, 3], 37.0).T)),
+    ('hexagonal-rotated', 'hexagonal', lambda: am.Box(vects=np.array(am.Box.hexagonal(3.2, 5.1).vects) @ rodrigues([2, -1, 1], 63.0).T)),
 ]
 
 SETTINGS = ['p', 'a', 'b', 'c', 'i', 'f', 't1', 't2']
@@ -563,7 +570,7 @@ def all_indices(case):
 
 
 BRACKETS = ['[]', '()', '<>', '{}']
-FRACTIONS = [None] + [(p, q) for p in (1, 2, 3) for q in (1, 2, 3)]
+FRACTIONS = [None] + [(p, q) for p in (1, 2, 3) for q in (1, 2, 3)] + [(1, 10), (12, 5)]
 # spacing variants: (between fraction and bracket, pad inside brackets, separator, trailing)
 SPACINGS = [(' ', '', ' ', ''), ('', '', ' ', ''), (' ', ' ', ' ', ''), (' ', '', '  ', ''), (' ', '', ' ', ' '),
             ('  ', ' ', '   ', '  ')]
@@ -576,7 +583,7 @@ def fromstring(case):
     lead, pad, sep, trail = SPACINGS[case['spacing']]
     n = case['n']
     fails = []
-    for tup in itertools.product(range(-SMAX, SMAX + 1), repeat=n):
+    for tup in itertools.product(SVALUES, repeat=n):
         if not any(tup):
             continue          # the zero index vector is outside the quantifier
         body = br[0] + pad + sep.join(str(x) for x in tup) + pad + br[1] + trail
